@@ -385,3 +385,16 @@ def iter_exprs(du: DefUse, for_node: Node, _seen=None, depth: int = 0) -> List[a
                 return [it]
         return out or [it]
     return [it]
+
+
+def value_roots(du: DefUse, n: Node, e: ast.AST, conv=("decode",), _depth: int = 0) -> List[Origin]:
+    """Origins of *e* with pure conversions peeled off: ``X.decode(...)`` (or another method named in *conv*) is
+    followed to the origins of ``X``."""
+    out: List[Origin] = []
+    for o in origins(du, n, e):
+        v = o.leaf
+        if _depth < 6 and o.kind == "expr" and not o.path and isinstance(v, ast.Call) and isinstance(v.func, ast.Attribute) and v.func.attr in conv:
+            out.extend(value_roots(du, o.node, v.func.value, conv, _depth + 1))
+        else:
+            out.append(o)
+    return out
